@@ -3,6 +3,7 @@ package harness
 import (
 	"fmt"
 	"runtime"
+	"strings"
 	"sync"
 	"sync/atomic"
 	"testing"
@@ -26,7 +27,7 @@ type C14Case struct {
 	Construct bool       `json:"construct"`
 	Procs     int        `json:"procs"`
 	Keywords  [][]string `json:"keywords,omitempty"` // per goroutine: registered in every context of that goroutine
-	Pattern   int        `json:"pattern"` // makes the regular expressions of the "lits" grammar and of concurrently constructed terminals fresh in this process
+	Pattern   int        `json:"pattern"`            // makes the regular expressions of the "lits" grammar and of concurrently constructed terminals fresh in this process
 }
 
 func (c *C14Case) Describe() string {
@@ -77,6 +78,15 @@ func genC14(t *rapid.T) interface{} {
 				in += rapid.SampledFrom([]string{"?", ")", "]", " x", "\n?"}).Draw(t, "junk")
 			}
 		}
+		// sometimes one blank becomes a long whitespace run (longer than any threshold a scanner might have)
+		if sp := blankIdx(in); len(sp) > 0 && rapid.IntRange(0, 3).Draw(t, "longws") == 0 {
+			i := sp[rapid.IntRange(0, len(sp)-1).Draw(t, "longwsAt")]
+			run := ""
+			for k := rapid.IntRange(16, 40).Draw(t, "longwsLen"); k > 0; k-- {
+				run += rapid.SampledFrom([]string{" ", " ", " ", "\n", "\t"}).Draw(t, "longwsCh")
+			}
+			in = in[:i] + run + in[i+1:]
+		}
 		return in
 	}
 	n := rapid.IntRange(2, 8).Draw(t, "goroutines")
@@ -87,7 +97,14 @@ func genC14(t *rapid.T) interface{} {
 		k := rapid.IntRange(1, 4).Draw(t, "njobs")
 		var jobs []string
 		for j := 0; j < k; j++ {
-			jobs = append(jobs, input())
+			in := input()
+			jobs = append(jobs, in)
+			// siblings of the same length whose line breaks sit elsewhere (same file name, same size)
+			if sp := blankIdx(in); len(sp) >= 2 && rapid.IntRange(0, 2).Draw(t, "siblings") == 0 {
+				for _, i := range []int{sp[0], sp[len(sp)/2], sp[len(sp)-1]} {
+					jobs = append(jobs, in[:i]+"\n"+in[i+1:])
+				}
+			}
 		}
 		c.Jobs = append(c.Jobs, jobs)
 		// every goroutine reserves its own words in its own contexts
@@ -154,8 +171,33 @@ func identParser() parsley.Parser {
 	})
 }
 
+// blankIdx lists the offsets of the single blanks of s.
+func blankIdx(s string) []int {
+	var sp []int
+	for i := 0; i < len(s); i++ {
+		if s[i] == ' ' {
+			sp = append(sp, i)
+		}
+	}
+	return sp
+}
+
+var baselineNo int64
+
+// runAlone is the baseline of one run: the same parse under a file name no other run of this
+// process has used, so that nothing remembered under a file's name (or name and size) reaches it;
+// the name is put back to "f" in the rendered result.
+func runAlone(p parsley.Parser, in string, keywords ...string) string {
+	name := fmt.Sprintf("alone%d", atomic.AddInt64(&baselineNo, 1))
+	return strings.ReplaceAll(runOneNamed(p, name, in, keywords...), " at "+name+":", " at f:")
+}
+
 func runOne(p parsley.Parser, in string, keywords ...string) string {
-	f := text.NewFile("f", []byte(in))
+	return runOneNamed(p, "f", in, keywords...)
+}
+
+func runOneNamed(p parsley.Parser, name, in string, keywords ...string) string {
+	f := text.NewFile(name, []byte(in))
 	ctx := parsley.NewContext(parsley.NewFileSet(f), text.NewReader(f))
 	ctx.RegisterKeywords(keywords...)
 	v, err := parsley.Evaluate(ctx, p)
@@ -257,7 +299,7 @@ func checkC14(ci interface{}, st *Stats) error {
 		f := false
 		for _, in := range jobs {
 			if _, ok := want[in]; !ok {
-				want[in] = runOne(p, in, kw(g)...)
+				want[in] = runAlone(p, in, kw(g)...)
 			}
 			if !containsNilErr(want[in]) {
 				f = true
